@@ -88,7 +88,8 @@ func gatesAuth(s *Summary, c *gateCase) {
 		accounts[a[0]] = a[1]
 	}
 	for _, hv := range authHeaders(c) {
-		for pos := 0; pos < 4; pos++ { // the gate as global, group or route middleware; 3: behind a handler that has already written
+		for posk := 0; posk < 8; posk++ { // the gate as global, group or route middleware; 3: behind a handler that has already written
+			pos, preflight := posk%4, posk >= 4 // preflight: the same as an OPTIONS request that looks like a CORS preflight
 			ran := []string{}
 			r := rux.New()
 			auth := handlers.HTTPBasicAuth(accounts)
@@ -96,21 +97,26 @@ func gatesAuth(s *Summary, c *gateCase) {
 			switch pos {
 			case 0:
 				r.Use(mark("before"), auth, mark("after"))
-				r.GET("/p", mark("main"))
+				r.Add("/p", mark("main"), "GET", "OPTIONS")
 			case 1:
 				r.Use(mark("before"))
-				r.Group("/", func() { r.GET("/p", mark("main"), mark("after")) }, auth)
+				r.Group("/", func() { r.Add("/p", mark("main"), "GET", "OPTIONS").Use(mark("after")) }, auth)
 			case 2:
 				r.Use(mark("before"))
-				r.GET("/p", mark("main"), auth, mark("after"))
+				r.Add("/p", mark("main"), "GET", "OPTIONS").Use(auth, mark("after"))
 			default:
 				// a generic http.Handler wrapped as middleware has started the response before the gate is reached: the gate can
 				// no longer change the status, but it still decides whether anything downstream runs
 				r.Use(mark("before"), rux.WrapHTTPHandler(http.HandlerFunc(func(w http.ResponseWriter, _ *http.Request) { _, _ = w.Write([]byte("banner;")) })),
 					auth, mark("after"))
-				r.GET("/p", mark("main"))
+				r.Add("/p", mark("main"), "GET", "OPTIONS")
 			}
 			req := &http.Request{Method: "GET", URL: &url.URL{Path: "/p"}, Header: http.Header{}, Proto: "HTTP/1.1"}
+			if preflight {
+				req.Method = "OPTIONS"
+				req.Header.Set("Access-Control-Request-Method", "DELETE")
+				req.Header.Set("Origin", "http://elsewhere.example")
+			}
 			if hv != "<none>" {
 				req.Header.Set("Authorization", hv)
 			}
@@ -126,7 +132,7 @@ func gatesAuth(s *Summary, c *gateCase) {
 			if w.Code != wantCode || downstream != (c.Expect == "pass") || (c.Expect == "401") != challenge || (c.Expect != "pass" && !reflect.DeepEqual(ran, []string{"before"})) {
 				s.mismatch(map[string]any{"kind": "gates", "aspect": "auth", "what": fmt.Sprintf(
 					"HTTPBasicAuth(accounts %v) as %s middleware, Authorization %q: status %d, handlers run %v, challenge=%v; the statement gives %s",
-					accounts, []string{"global", "group", "route", "global (after a handler that has written)"}[pos], hv, w.Code, ran, challenge, c.Expect)}, c)
+					accounts, []string{"global", "group", "route", "global (after a handler that has written)"}[pos]+map[bool]string{true: " (OPTIONS preflight)", false: ""}[preflight], hv, w.Code, ran, challenge, c.Expect)}, c)
 				return
 			}
 		}
